@@ -170,9 +170,10 @@ impl LinkMon {
             }
         } else if n.state != CcState::Bootstrap {
             mon.count("seed");
-            // the seed itself: at least 0.75 · 1 Mbit/s, at most 1.06 · max(1 Mbit/s, measured)
+            // the seed itself (not a clause of C16, a sanity envelope): at least ⌊0.75·seed⌋, at most 1.06·seed,
+            // seed = clamp(max(1 Mbit/s, outlier-clamped measured))
             let s = sane.max(1_000_000).min(MAX_T as u128);
-            if t2 * 1000 > s * 1060 || t2 * 1000 < s * 750 {
+            if t2 * 1000 > s * 1060 || t2 < s * 750 / 1000 {
                 mon.fail("C16", "seed-out-of-range", ctx(&format!("first seed outside [0.75, 1.06]·max(1e6, measured={sane})")));
             }
         }
@@ -222,8 +223,8 @@ pub struct LinkCc {
     lm: LinkMon,
     prev_bytes: Option<u64>,
     ctl: LinkCcController,
-    /// ghost per id, only for ids present in the previous `all` call
-    ctl_mon: BTreeMap<u64, LinkMon>,
+    /// shadow state + ghost per id, only for ids present in the previous `all` call
+    shadow: BTreeMap<u64, (LinkCongestionState, LinkMon)>,
 }
 
 impl Default for LinkCc {
@@ -233,7 +234,7 @@ impl Default for LinkCc {
             lm: LinkMon::fresh(),
             prev_bytes: None,
             ctl: LinkCcController::new(),
-            ctl_mon: BTreeMap::new(),
+            shadow: BTreeMap::new(),
         }
     }
 }
@@ -709,71 +710,61 @@ impl Component for LinkCc {
                 }
                 let snaps = self.ctl.tick_all(&links, now);
                 mon.count("tick_all");
-                // ghost: replay each link's inputs in order on the per-id monitors
-                let mut next_mon: BTreeMap<u64, LinkMon> = BTreeMap::new();
-                // expected state of links that were absent in the previous call: a default state
-                // driven through exactly this call's inputs (garbage collection ⇒ restart)
-                let mut fresh: BTreeMap<u64, LinkCongestionState> = BTreeMap::new();
-                let mut dup = false;
+                // Shadow: one real `LinkCongestionState` per id, stepped by the harness with the same
+                // inputs in the same order; an id absent from the previous call starts from
+                // `default()` (garbage collection ⇒ restart).  The per-tick monitors run on the shadow
+                // (every intermediate step is observable there) and the shadow's final snapshot must be
+                // what `tick_all` returned.
+                let mut next: BTreeMap<u64, (LinkCongestionState, LinkMon, bool)> = BTreeMap::new();
                 for (i, (id, _rtt, bytes, nak, bps)) in cs.iter().enumerate() {
                     let smooth = links[i].get_smooth_rtt_ms();
                     let obs = bps.max(0.0) as u64;
-                    let was_present = self.ctl_mon.contains_key(id);
-                    if next_mon.contains_key(id) {
-                        dup = true;
+                    if next.contains_key(id) {
+                        mon.count("duplicate-id");
                     }
-                    let lm = next_mon.entry(*id).or_insert_with(|| {
-                        if was_present { self.ctl_mon[id].clone() } else { LinkMon::fresh() }
+                    let old = &mut self.shadow;
+                    let (cc, lm, was_present) = next.entry(*id).or_insert_with(|| match old.remove(id) {
+                        Some((cc, lm)) => (cc, lm, true),
+                        None => (LinkCongestionState::default(), LinkMon::fresh(), false),
                     });
+                    let tag = format!("link {id} ");
                     if smooth > 0.0 {
+                        cc.record_rtt(smooth, now);
                         lm.note_rtt(smooth);
+                        lm.after_other(&cc.snapshot(), "record_rtt", mon);
                     }
-                    if !was_present {
-                        let f = fresh.entry(*id).or_default();
-                        if smooth > 0.0 {
-                            f.record_rtt(smooth, now);
-                        }
-                        f.observe_traffic(*bytes, *nak, now);
-                        f.tick(obs, now);
+                    cc.observe_traffic(*bytes, *nak, now);
+                    lm.after_other(&cc.snapshot(), "observe_traffic", mon);
+                    cc.tick(obs, now);
+                    lm.after_tick(&cc.snapshot(), obs, now, &tag, mon);
+                    let _ = was_present;
+                }
+                for (id, (cc, _, was_present)) in next.iter() {
+                    if !*was_present {
+                        mon.count("link-(re)appeared");
                     }
-                    // Only the last occurrence of an id has its snapshot in the returned map.
-                    let last = !cs[i + 1..].iter().any(|c| c.0 == *id);
-                    if last {
-                        match snaps.get(id) {
-                            None => mon.fail("C16", "tick_all-missing", format!("id {id} not in the returned map")),
-                            Some(n) => {
-                                let only_once = cs.iter().filter(|c| c.0 == *id).count() == 1;
-                                if only_once {
-                                    lm.after_tick(n, obs, now, &format!("link {id} "), mon);
+                    match snaps.get(id) {
+                        None => mon.fail("C16", "tick_all-missing", format!("id {id} not in the returned map")),
+                        Some(n) => {
+                            let exp = show_snap(",", &cc.snapshot());
+                            let got = show_snap(",", n);
+                            if exp != got {
+                                if *was_present {
+                                    mon.fail("C16", "tick_all-diverges", format!("link {id}: tick_all returned {got}, per-link steps give {exp}"));
                                 } else {
-                                    // two steps on one entry in one call: per-step snapshots are not observable
-                                    lm.prev = Some(*n);
-                                    lm.seeded |= n.state != CcState::Bootstrap;
-                                    lm.trace.clear();
-                                }
-                                if !was_present {
-                                    mon.count(if self.ctl_mon.is_empty() && now == 0 { "link-new" } else { "link-(re)appeared" });
-                                    let f = fresh[id].snapshot();
-                                    if show_snap(",", &f) != show_snap(",", n) {
-                                        mon.fail("C16", "gc-stale-state", format!("link {id} (re)appeared but does not start from the default state: {} vs fresh {}", show_snap(",", n), show_snap(",", &f)));
-                                    }
+                                    mon.fail("C16", "gc-stale-state", format!("link {id} (re)appeared but does not start from the default state: {got} vs fresh {exp}"));
                                 }
                             }
                         }
                     }
                 }
-                if dup {
-                    mon.count("duplicate-id");
+                for _ in self.shadow.keys() {
+                    mon.count("link-vanished"); // ids left in the old map were not in this call
                 }
-                for id in self.ctl_mon.keys() {
-                    if !next_mon.contains_key(id) {
-                        mon.count("link-vanished");
-                    }
+                if snaps.len() != next.len() {
+                    mon.fail("C16", "tick_all-extra", format!("returned {} snapshots for {} distinct ids", snaps.len(), next.len()));
                 }
-                if snaps.len() != next_mon.len() {
-                    mon.fail("C16", "tick_all-extra", format!("returned {} snapshots for {} distinct ids", snaps.len(), next_mon.len()));
-                }
-                self.ctl_mon = next_mon;
+                self.shadow = next.into_iter().map(|(k, (cc, lm, _))| (k, (cc, lm))).collect();
                 let mut ids: Vec<u64> = snaps.keys().copied().collect();
                 ids.sort();
                 if ids.is_empty() {
